@@ -1,9 +1,9 @@
 package main
 
 import (
+	"bufio"
 	"crypto/sha256"
 	"encoding/hex"
-	"bufio"
 	"encoding/json"
 	"fmt"
 	"math/rand"
@@ -176,4 +176,3 @@ func toInts(b []byte) []int {
 	}
 	return a
 }
-
